@@ -99,11 +99,11 @@ theorem mem_neighbors_nodes (rows : List (MRow ℝ)) (id nb : Int) (h : nb ∈ n
 /-- **The pipeline is exact on linear fields for every node numbering**: each output row `(id, gradient)` of
 `Gradient.gradient_of` carries `g`, provided the least-squares system of that node (rows `nbrDiffs rows id`)
 has full column rank. -/
-theorem gradientLsq_exact_aux (rows : List (MRow ℝ)) (g : V3 ℝ) (c : ℝ)
+theorem gradientLsq_exact_aux (rtol : ℝ) (rows : List (MRow ℝ)) (g : V3 ℝ) (c : ℝ)
     (hcoord : ∀ r ∈ rows, ∀ r' ∈ rows, r.node = r'.node → r.p = r'.p)
     (hlin : ∀ r ∈ rows, r.v = g.dot r.p + c)
-    (id : Int) (gr : V3 ℝ) (hmem : (id, gr) ∈ gradientLsq (fun n => (n : ℝ)) rows) :
-    id ∈ rows.map (·.node) ∧ gr = lstsq3 ((nbrDiffs rows id).map fun a => (a, a.dot g)) := by
+    (id : Int) (gr : V3 ℝ) (hmem : (id, gr) ∈ gradientLsq rtol (fun n => (n : ℝ)) rows) :
+    id ∈ rows.map (·.node) ∧ gr = lstsq3 rtol ((nbrDiffs rows id).map fun a => (a, a.dot g)) := by
   simp only [gradientLsq, List.mem_map] at hmem
   obtain ⟨⟨id', pos⟩, hz, heq⟩ := hmem
   simp only [Prod.mk.injEq] at heq
@@ -131,10 +131,10 @@ theorem gradientLsq_exact_aux (rows : List (MRow ℝ)) (g : V3 ℝ) (c : ℝ)
   ring
 
 /-- The result has one row per node id, ascending. -/
-theorem gradientLsq_ids (cnt : Nat → ℝ) (rows : List (MRow ℝ)) :
-    (gradientLsq cnt rows).map (·.1) = sortedUnique (rows.map (·.node)) := by
+theorem gradientLsq_ids (rtol : ℝ) (cnt : Nat → ℝ) (rows : List (MRow ℝ)) :
+    (gradientLsq rtol cnt rows).map (·.1) = sortedUnique (rows.map (·.node)) := by
   simp only [gradientLsq, List.map_map]
-  have : ((fun x : Int × V3 ℝ => x.1) ∘ fun x : Int × Nat => (x.1, lstsq3 ((neighbors rows x.1).map fun nb =>
+  have : ((fun x : Int × V3 ℝ => x.1) ∘ fun x : Int × Nat => (x.1, lstsq3 rtol ((neighbors rows x.1).map fun nb =>
       ((((nodeData rows (sortedUnique (rows.map (·.node))) cnt).toArray.getD (indexOf (sortedUnique (rows.map (·.node))) nb) (default, 0.0)).1.sub
         ((nodeData rows (sortedUnique (rows.map (·.node))) cnt).toArray.getD x.2 (default, 0.0)).1),
        ((nodeData rows (sortedUnique (rows.map (·.node))) cnt).toArray.getD (indexOf (sortedUnique (rows.map (·.node))) nb) (default, 0.0)).2 -
